@@ -4638,7 +4638,7 @@ func c06AntiDeadlockArmAndFireAgree(c *Ctx) {
 		return out
 	}
 	a, f := clean(ga), clean(gf)
-	c.Check(len(a) >= 2 && strings.Join(a, " ∧ ") == strings.Join(f, " ∧ "), R, "agree:the anti-deadlock probe fires under the condition it is armed with", c.P.Pos(fire.Pos()),
+	c.Check(len(a) >= 1 && strings.Join(a, " ∧ ") == strings.Join(f, " ∧ "), R, "agree:the anti-deadlock probe fires under the condition it is armed with", c.P.Pos(fire.Pos()),
 		fmt.Sprintf("armed under {%s}, fires under {%s}: with a difference the timer expires, does nothing and re-arms (no probe, no back-off), and an amplification-blocked server is never unblocked", strings.Join(a, " ∧ "), strings.Join(f, " ∧ ")))
 }
 
@@ -4994,15 +4994,34 @@ func c19ResponseWriterDropsConnectionSpecific(c *Ctx) {
 	c.Floor(R, "WriteField calls for the handler's fields in writeHeader", countInstr(f, inLoop), 1)
 	for _, name := range []string{"connection", "proxy-connection", "transfer-encoding", "upgrade", "keep-alive"} {
 		name := name
-		fold := func(v ssa.Value) bool {
-			cl, ok := v.(*ssa.Call)
-			if !ok || cl.Call.StaticCallee() == nil || cl.Call.StaticCallee().Name() != "EqualFold" || len(cl.Call.Args) != 2 {
+		isFold := func(cl *ssa.Call) bool {
+			if cl.Call.StaticCallee() == nil || cl.Call.StaticCallee().Name() != "EqualFold" || len(cl.Call.Args) != 2 {
 				return false
 			}
 			for _, a := range cl.Call.Args {
 				if k, ok := a.(*ssa.Const); ok && k.Value != nil && k.Value.Kind() == constant.String && constant.StringVal(k.Value) == name {
 					return true
 				}
+			}
+			return false
+		}
+		fold := func(v ssa.Value) bool {
+			cl, ok := v.(*ssa.Call)
+			if !ok {
+				return false
+			}
+			if isFold(cl) {
+				return true
+			}
+			// or a predicate of this package (shared with the request writer) whose body makes that comparison
+			if sc := cl.Call.StaticCallee(); sc != nil && sc.Pkg == f.Pkg && len(sc.Blocks) > 0 && sc.Signature.Results().Len() == 1 {
+				found := false
+				eachInstr(sc, func(x ssa.Instruction) {
+					if y, ok := x.(*ssa.Call); ok && isFold(y) {
+						found = true
+					}
+				})
+				return found
 			}
 			return false
 		}
